@@ -66,6 +66,8 @@ def run(ctx) -> None:
     r12_7(ctx, info)
     from .common import descriptor_binding
     descriptor_binding(ctx, "R12.8", ("functools",))
+    from . import c09
+    c09.r09_8(ctx, "R12.9", "functools")  # (a supplied lock is used whatever its truth value: R09.8's rule for cached_property)
     ctx.floor("descriptors", 1)
     ctx.floor("slot_tests", 2)
 
@@ -81,6 +83,11 @@ def placeholder_fields(info) -> dict:
             tgt = s_.targets[0] if isinstance(s_, ast.Assign) else s_.target
             if isinstance(tgt, ast.Attribute) and isinstance(s_.value, ast.Name) and s_.value.id in roles:
                 out[roles[s_.value.id]] = tgt.attr
+            elif isinstance(tgt, ast.Attribute) and s_.value is not None:
+                # stored through an expression (``lock if lock is not None else NoLock()``): the one parameter it mentions
+                mentioned = {x.id for x in ast.walk(s_.value) if isinstance(x, ast.Name) and x.id in roles}
+                if len(mentioned) == 1:
+                    out.setdefault(roles[mentioned.pop()], tgt.attr)
     if set(out) != {"func", "instance", "name", "lock"}:
         raise AnalysisError(f"placeholder __init__ no longer stores (getter, instance, name, lock): {out} (anchor moved)")
     return out
